@@ -348,6 +348,9 @@ func (c *SimClient) send(op *Op, msg *ClientComMessage) *Sent {
 		raw := op.Raw
 		if raw == nil {
 			raw, _ = json.Marshal(msg)
+			if op.Mut != 0 {
+				raw = mutateJSON(raw, op.Mut, op.MutArg)
+			}
 		}
 		select {
 		case c.inLP <- raw:
